@@ -44,6 +44,8 @@ def _rshift1(rng):
         return rng.choice([-1, 1]) * rng.uniform(16, 300)      # far off-axis
     if c < 0.35:
         return 0
+    if c < 0.4:
+        return rng.choice([-1, 1]) * (rng.randint(0, 7) + 0.5)      # exactly half a sample
     if c < 0.6:
         return rng.choice([-1, 1]) * rng.randint(1, 8)
     if c < 0.7:
@@ -212,7 +214,7 @@ def generate(rng, tier):
     }
     if not (enabled["mdft"] or enabled["czt"] or enabled["fft"] or enabled["phys"]):
         enabled["mdft"] = enabled["czt"] = True
-    npool = rng.randint(2, 6)
+    npool = rng.randint(2, 6) if (tier == "quick" or rng.random() < 0.9) else rng.randint(8, 30)
     pool = [_base_geom(rng, hi)]
     while len(pool) < npool:
         if rng.random() < 0.8:
@@ -235,6 +237,8 @@ def generate(rng, tier):
 
     ops = []
     nsteps = rng.randint(3, 25 if tier == "quick" else 40)
+    if tier != "quick" and rng.random() < 0.1:
+        nsteps = rng.randint(40, 90)          # long histories: caches grow past any small bound
     fft_family = _fft_family(rng, hi) if (enabled["fft"] and rng.random() < 0.6) else []
     weights = []
     if enabled["mdft"]:
@@ -256,10 +260,11 @@ def generate(rng, tier):
     names = [w[0] for w in weights]
     wts = [w[1] for w in weights]
     last_judged = None
+    judged_so_far = []
     for _ in range(nsteps):
         if last_judged is not None and rng.random() < 0.2:
-            # repeat an earlier judged call verbatim (history-independence probe)
-            ops.append(dict(last_judged))
+            # repeat an earlier judged call verbatim (history-independence probe): A ... B ... A
+            ops.append(dict(rng.choice(judged_so_far) if rng.random() < 0.5 else last_judged))
             continue
         kind = rng.choices(names, wts)[0]
         if kind in ("dft2", "idft2", "czt2", "iczt2"):
@@ -325,6 +330,7 @@ def generate(rng, tier):
         ops.append(op)
         if kind in JUDGED:
             last_judged = op
+            judged_so_far.append(op)
     return {"prop": PROP, "tier": tier, "config": cfg, "arrays": arrays, "ops": ops}
 
 
